@@ -84,7 +84,7 @@ Ltac ty :=
   | |- typed _ _ _ (IAnonFn _ _ _) _ => eapply T_AnonFn; [clos|side|tylist|side]
   | |- typed _ _ _ (IUn UCollect _) _ => eapply T_Collect; [gate|ty|side]
   | |- typed _ _ _ (IReduce _ _ _) _ => eapply T_Reduce_i; [gate|ty|ty|ty|side|side|side|side]
-  | |- typed _ _ _ (ITypeFilter _ _) _ => eapply T_TypeFilter; [gate|ty|side|side|side|vm_compute; tauto]
+  | |- typed _ _ _ (ITypeFilter _ _) _ => eapply T_TypeFilter; [gate|ty|side|side|side]
   | |- @typed ?F ?W ?G ?K ?i ?T =>
       let i' := eval hnf in i in progress (change (@typed F W G K i' T)); ty
   end
